@@ -23,11 +23,11 @@ theorem gameLoop_never_asserts : âˆ€ (fuel : Nat) (b : Board), b.WF = true â†’ â
     | nil => simp
     | cons k ks' =>
       simp only []
-      cases hm : (search b tf k prev).move with
+      cases hm : (search false b tf k prev).move with
       | none => simp
       | some mv =>
         simp only []
-        have hmem := Proofs.Search.search_legal b tf k prev mv hm
+        have hmem := Proofs.Search.search_legal false b tf k prev mv hm
         have hl : b.isLegal mv = true := by
           rw [Props.C01.isLegal_iff, Proofs.IterMask.legalsList_eq b hwf]
           exact hmem
